@@ -5,7 +5,10 @@ use std::ops::Index;
 
 use itertools::Itertools;
 use lazy_init::Lazy;
+#[cfg(not(fclones_verif_shuttle))]
 use rayon::{ThreadPool, ThreadPoolBuilder};
+#[cfg(fclones_verif_shuttle)]
+use crate::verif_shim::pool::{ThreadPool, ThreadPoolBuilder};
 use sysinfo::{DiskExt, DiskKind, System, SystemExt};
 
 use crate::config::Parallelism;
